@@ -247,7 +247,13 @@ Proof.
     + apply nows_app. split; [now apply nows_rev|].
       apply nows_cons; split; [apply bsl_not_space|]. apply nows_cons; split; [assumption|apply nows_nil].
   - destruct (dollar specials_core w); [|split; assumption].
-    split; [discriminate|]. apply nows_cons; split; [apply bsl_not_space|assumption].
+    destruct (forallb _ w).
+    + split.
+      * destruct w as [|c r]; [congruence|discriminate].
+      * clear Hne. induction w as [|c r IH]; [apply nows_nil|].
+        apply nows_cons in Hw as [Hc Hr]. cbn [flat_map app].
+        apply nows_cons; split; [apply bsl_not_space|]. apply nows_cons; split; [assumption|]. now apply IH.
+    + split; [discriminate|]. apply nows_cons; split; [apply bsl_not_space|assumption].
 Qed.
 
 Lemma Forall_concat_inv {A} (P : A -> Prop) (Lo : list (list A)) :
